@@ -266,7 +266,7 @@ Qed.
 Lemma cseq0_inv o : cs_inv o cseq0. Proof. unfold cs_inv, pf_end. cbn. lia. Qed.
 
 (* ---- first line --------------------------------------------------------------------------------------------------- *)
-From Sipsp Require Import Ext ExtLeaf MsgBounds IP4.
+From Sipsp Require Import Ext ExtLeaf MsgBounds IP4 OkBounds.
 Definition fl_inv (o : N) (s : fline) : Prop :=
   pf_end (fl_method s) <= o /\ pf_end (fl_uri s) <= o /\ pf_end (fl_version s) <= o /\
   pf_end (fl_statuscode s) <= o /\ pf_end (fl_reason s) <= o.
@@ -408,7 +408,7 @@ Definition fb_inv (L : N) (pre : list byte) (o : N) (s : pfrom) : Prop :=
   pf_end (fb_v s) <= o /\ fb_soffs s <= o /\ fb_pstart s <= o /\ fb_pend s <= o /\ fb_vstart s <= o /\ fb_vend s <= o /\
   (fb_state s = FbNameOrURI -> span is_ws pre = 0%nat) /\
   (po (fb_params s) <> 0 -> nnat (span is_ws pre) + po (fb_params s) < o) /\
-  L <= o /\ (fb_state s <> FbInit -> L <= po (fb_v s)).
+  L <= o /\ (fb_state s <> FbInit -> L <= po (fb_v s)) /\ (po (fb_params s) = 0 -> pl (fb_params s) = 0).
 
 Lemma span_ws_rev_app (a : list byte) : forall pre, (span is_ws (rev a ++ pre) <= length a + span is_ws pre)%nat.
 Proof.
@@ -577,3 +577,413 @@ Proof.
     destruct s; unfold fb_bnd, pf_end in *; cbn -[N.add N.sub] in *. repeat split; auto; try lia.
     intros _. apply H12. subst. discriminate.
 Qed.
+
+Lemma fb_eoh_ok L h pre rest i0 j ret e s : fb_bnd L i0 s -> j <= i0 -> po (fb_v s) <= j ->
+  (po (fb_params s) <> 0 -> po (fb_params s) <= j) -> (fb_state s = FbNameOrURI -> fb_soffs s <= j) ->
+  ret <= i0 + nnat (length rest) -> i0 <= ret -> e <> EMore ->
+  fb_step_res L pre rest i0 (fb_endOfHdr h pre rest i0 j ret e s).
+Proof.
+  intros Hb Hj Hv Hp Hs Hr Hr2 He. pose proof (fb_close_ok L pre rest i0 j s Hb Hj Hv Hp Hs) as H.
+  unfold fb_endOfHdr. destruct (fb_close pre rest i0 j s) as [[s1|]|]; [|..]; try contradiction.
+  - destruct H as (Hb1 & Hni & Hpv). unfold fb_step_res, fb_Q. split; [exact Hr|]. split.
+    + apply (fb_bnd_mono L i0); [lia|]. destruct s1; unfold fb_bnd, pf_end in *; cbn -[N.add N.sub] in *.
+      destruct Hb1 as (H1&H2&H3&H4&H5&H6&H7&H8&H9&H10&H11&H12). repeat split; auto; try lia.
+      intros _. destruct Hb as (_&_&_&_&_&_&_&_&_&_&_&G). rewrite Hpv. apply G. exact Hni.
+    + split; [intros E; congruence|intros _; exact Hr2].
+  - unfold fb_step_res, fb_Q. split; [exact Hr|]. split; [apply (fb_bnd_mono L i0); [lia|exact Hb]|].
+    split; [intros E; destruct (fb_state s); discriminate|intros [E|E]; destruct (fb_state s); discriminate].
+Qed.
+
+Lemma fb_inv_adv L pre rest i k s : i = nnat (length pre) -> (k <= length rest)%nat -> fb_inv L pre i s ->
+  fb_state s <> FbNameOrURI -> fb_inv L (zpre k pre rest) (i + nnat k) s.
+Proof.
+  intros Hi Hk (H1&H2&H3&H4&H5&H6&H7&H8&H9&H10&F1&F2&H11&H12&F3) Hst. pose proof (span_ws_zpre k pre rest Hk) as Hsp.
+  unfold fb_inv. unfold nnat in *. repeat split; try lia; auto; try (intros Hp; specialize (F2 Hp); lia). intros E; contradiction.
+Qed.
+
+(* one step over a byte that is not white space *)
+Lemma fb_next1 L pre c r i s' : i = nnat (length pre) -> is_ws c = false -> fb_bnd L (i + 1) s' ->
+  (po (fb_params s') <> 0 -> po (fb_params s') <= i) -> (po (fb_params s') = 0 -> pl (fb_params s') = 0) ->
+  (0 < 1 <= length (c :: r))%nat /\ fb_P L (zpre 1 pre (c :: r)) (zrest 1 (c :: r)) (i + nnat 1) s'.
+Proof.
+  intros Hi Hc (H1&H2&H3&H4&H5&H6&H7&H8&H9&H10&H11&H12) Hp Hp3. split; [cbn [length]; lia|].
+  unfold fb_P, zpre. cbn [firstn rev app length]. split; [unfold nnat in *; cbn [length]; lia|].
+  unfold fb_inv. cbn [span]. rewrite Hc. replace (i + nnat 1) with (i + 1) by (unfold nnat; lia).
+  repeat split; auto; intros Hq; try (specialize (Hp Hq); unfold nnat; lia).
+Qed.
+
+Lemma fb_lws_ok L h pre c r i s1 : is_ws c = true -> i = nnat (length pre) -> fb_inv L pre i s1 -> fb_state s1 <> FbNameOrURI ->
+  fb_step_res L pre (c :: r) i (fb_lws h pre (c :: r) i s1).
+Proof.
+  intros Hws Hi Hinv Hst. unfold fb_lws. pose proof (skipLWS_bounds false (c :: r)) as Hb.
+  pose proof Hinv as (H1&H2&H3&H4&H5&H6&H7&H8&H9&H10&F1&F2&H11&H12&F3). unfold pf_end in *.
+  destruct (skipLWS false (c :: r)) as [k|k crl|k] eqn:El.
+  - apply skipLWS_ws_progress in El; [|exact Hws]. split; [lia|]. split; [unfold nnat in *; rewrite zpre_length by lia; lia|].
+    apply fb_inv_adv; auto. 
+  - apply skipLWS_crl in El.
+    apply (fb_eoh_ok L h pre (c :: r) i i (i + nnat k + nnat crl) EOk s1 (fb_inv_bnd L pre i s1 Hinv)); [lia|lia|intros; lia|intros; lia|unfold nnat; lia|unfold nnat; lia|discriminate].
+  - unfold fb_step_res, fb_Q. split; [unfold nnat; lia|]. split; [apply (fb_bnd_mono L i); [lia|apply (fb_inv_bnd L pre); exact Hinv]|].
+    split; [|intros [E|E]; discriminate]. intros _. exists k. split; [exact Hb|]. split; [reflexivity|]. apply fb_inv_adv; auto.
+Qed.
+
+Lemma fb_lws_b_ok L h pre c r i s upd : is_ws c = true -> i = nnat (length pre) -> fb_inv L pre i s ->
+  (forall n, fb_state (upd n) <> FbNameOrURI) ->
+  (forall k, fb_inv L pre i (upd None) /\ (forall o, i <= o -> fb_bnd L o (upd (Some o))) /\
+             fb_params (upd (Some k)) = fb_params s /\ (fb_state (upd (Some k)) <> FbInit -> L <= po (fb_v (upd (Some k))))) ->
+  fb_step_res L pre (c :: r) i (fb_lws_b h pre (c :: r) i s upd).
+Proof.
+  intros Hws Hi Hinv Hst Hupd. unfold fb_lws_b. pose proof (skipLWS_bounds false (c :: r)) as Hb.
+  pose proof Hinv as (H1&H2&H3&H4&H5&H6&H7&H8&H9&H10&F1&F2&H11&H12&F3). unfold pf_end in *.
+  destruct (skipLWS false (c :: r)) as [k|k crl|k] eqn:El.
+  - apply skipLWS_ws_progress in El; [|exact Hws]. split; [lia|]. split; [unfold nnat in *; rewrite zpre_length by lia; lia|].
+    destruct (Hupd (i + nnat k)) as (_ & U2 & U3 & U4). specialize (U2 (i + nnat k) ltac:(unfold nnat; lia)).
+    destruct U2 as (B1&B2&B3&B4&B5&B6&B7&B8&B9&B10&B11&B12). pose proof (span_ws_zpre k pre (c :: r) Hb) as Hsp.
+    unfold fb_inv. repeat split; auto; try (intros E; exfalso; exact (Hst _ E)); rewrite U3; [intros Hp; specialize (F2 Hp); unfold nnat in *; lia|exact F3].
+  - apply skipLWS_crl in El. destruct (Hupd 0) as (U1 & _). pose proof U1 as (G1&G2&G3&G4&G5&G6&G7&G8&G9&G10&GF1&GF2&G11&G12&GF3). unfold pf_end in *.
+    apply (fb_eoh_ok L h pre (c :: r) i i (i + nnat k + nnat crl) EOk (upd None) (fb_inv_bnd L pre i _ U1)); [lia|lia|intros; lia|intros; lia|unfold nnat; lia|unfold nnat; lia|discriminate].
+  - unfold fb_step_res, fb_Q. split; [unfold nnat; lia|]. split; [apply (fb_bnd_mono L i); [lia|apply (fb_inv_bnd L pre); exact Hinv]|].
+    split; [|intros [E|E]; discriminate]. intros _. exists 0%nat. split; [lia|]. split; [unfold nnat; lia|].
+    replace (i + nnat 0) with i by (unfold nnat; lia). exact Hinv.
+Qed.
+
+Lemma fb_mv_ok L h pre c r i s : is_ws c = false -> i = nnat (length pre) -> fb_inv L pre i s ->
+  fb_step_res L pre (c :: r) i (fb_moreValues h pre (c :: r) i s).
+Proof.
+  intros Hc Hi Hinv. unfold fb_moreValues.
+  pose proof Hinv as (H1&H2&H3&H4&H5&H6&H7&H8&H9&H10&F1&F2&H11&H12&F3). unfold pf_end in *.
+  set (t := N.min (nnat (span is_ws pre)) (i - po (fb_v s))).
+  apply fb_eoh_ok; try discriminate.
+  - apply (fb_inv_bnd L pre); exact Hinv.
+  - lia.
+  - subst t. lia.
+  - intros Hp. specialize (F2 Hp). subst t. lia.
+  - intros Hs. specialize (F1 Hs). subst t. rewrite F1. unfold nnat. cbn. lia.
+  - unfold nnat. cbn [length]. lia.
+  - lia.
+Qed.
+
+Lemma ccls_ws c : is_ws c = true -> ccls_of c = KWs.
+Proof. unfold ccls_of. intros ->. reflexivity. Qed.
+Lemma ccls_nows c : ccls_of c <> KWs -> is_ws c = false.
+Proof. unfold ccls_of. destruct (is_ws c); [congruence|reflexivity]. Qed.
+Lemma ccls_nows' c : is_ws c = false -> ccls_of c <> KWs.
+Proof. unfold ccls_of. intros ->. repeat match goal with |- context [if ?b then _ else _] => destruct b end; discriminate. Qed.
+
+Lemma fb_setpv_ok L pre c r i s' : i = nnat (length pre) -> is_ws c = false -> fb_bnd L i s' ->
+  (po (fb_params s') = 0 -> pl (fb_params s') = 0) ->
+  fb_step_res L pre (c :: r) i (fb_setpv pre (c :: r) i s').
+Proof.
+  intros Hi Hc Hb Hp3. unfold fb_setpv.
+  destruct (setpv_ok L pre (c :: r) i i s' ltac:(lia) Hb) as (s1 & -> & Hb1 & E1 & E2 & E3 & E4).
+  apply fb_next1; [exact Hi|exact Hc|apply (fb_bnd_mono L i); [lia|exact Hb1]| |rewrite E2; exact Hp3].
+  intros _. rewrite E2. destruct Hb as (_&_&_&H4&_). unfold pf_end in H4. lia.
+Qed.
+
+Lemma fb_ret_ok L pre rest i e s : fb_bnd L i s -> e <> EMore -> fb_step_res L pre rest i (Ret i e s).
+Proof.
+  intros Hb He. unfold fb_step_res, fb_Q. split; [lia|]. split; [apply (fb_bnd_mono L i); [lia|exact Hb]|].
+  split; [intros E; congruence|intros _; lia].
+Qed.
+
+(* the tactic for "one byte further, these fields changed" *)
+Ltac fb_n1 Hi Hc :=
+  apply fb_next1; [exact Hi|exact Hc| | |];
+  [unfold fb_bnd, fb_inv, pf_end in *; cbn -[N.add N.sub] in *; repeat split; intros; try lia; try tauto; try discriminate;
+   try (match goal with Hx : _ -> ?G |- ?G => apply Hx; discriminate end)
+  |unfold fb_bnd, fb_inv, pf_end in *; cbn -[N.add N.sub] in *; intros; try lia
+  |unfold fb_bnd, fb_inv, pf_end in *; cbn -[N.add N.sub] in *; intros; try lia; try tauto].
+
+Section FbStep.
+  Variables (L h : N) (pre : list byte) (c : byte) (r1 : list byte) (i : N).
+  Hypothesis Hi : i = nnat (length pre).
+  Notation rest := (c :: r1).
+
+  Ltac unpack s Hinv :=
+    destruct s as [nm ur tg star lr he ty q ex pa v pe eo sta so ps pd vs ve];
+    pose proof Hinv as (H1&H2&H3&H4&H5&H6&H7&H8&H9&H10&F1&F2&H11&H12&F3);
+    unfold pf_end in H1, H2, H3, H4, H5; cbn -[N.add N.sub] in H1, H2, H3, H4, H5, H6, H7, H8, H9, H10, F1, F2, H11, H12, F3.
+
+  Lemma gURI_ok s k : fb_inv L pre i s -> fb_state s = FbURI -> (k = KWs <-> is_ws c = true) ->
+    fb_step_res L pre rest i (fb_gURI i s k).
+  Proof.
+    intros Hinv Est Hk. unpack s Hinv. cbn in Est. subst sta. unfold fb_gURI, fb_bad.
+    destruct k; try (apply fb_ret_ok; [apply (fb_inv_bnd L pre); exact Hinv|discriminate]).
+    all: assert (Hc : is_ws c = false) by (destruct (is_ws c); [destruct Hk as [_ Hk]; specialize (Hk eq_refl); discriminate|reflexivity]).
+    all: cbn -[N.add N.sub].
+    all: rewrite ?(pf_set_some so i), ?(pf_extend_some v (i + 1)) by (cbn; lia).
+    all: fb_n1 Hi Hc.
+  Qed.
+
+  Ltac kcase Hk :=
+    match goal with
+    | |- context [KWs] => idtac
+    | _ => idtac
+    end.
+
+  Lemma not_ws_of k : (k = KWs <-> is_ws c = true) -> k <> KWs -> is_ws c = false.
+  Proof. intros Hk Hn. destruct (is_ws c); [exfalso; apply Hn; apply Hk; reflexivity|reflexivity]. Qed.
+
+  Lemma comma_ok s : is_ws c = false -> fb_inv L pre i s -> fb_step_res L pre rest i (fb_comma h pre rest i s).
+  Proof.
+    intros Hc Hinv. unfold fb_comma. destruct (multipleValsOk h); [apply fb_mv_ok; assumption|].
+    unpack s Hinv. fb_n1 Hi Hc.
+  Qed.
+  Lemma comma_strict_ok s : is_ws c = false -> fb_inv L pre i s -> fb_step_res L pre rest i (fb_comma_strict h pre rest i s).
+  Proof.
+    intros Hc Hinv. unfold fb_comma_strict, fb_bad. destruct (multipleValsOk h); [apply fb_mv_ok; assumption|].
+    apply fb_ret_ok; [apply (fb_inv_bnd L pre); exact Hinv|discriminate].
+  Qed.
+
+  Lemma gURIFound_ok s k : fb_inv L pre i s -> fb_state s = FbURIFound -> (k = KWs <-> is_ws c = true) ->
+    fb_step_res L pre rest i (fb_gURIFound h pre rest i s k).
+  Proof.
+    intros Hinv Est Hk. unfold fb_gURIFound.
+    destruct k; try (pose proof (not_ws_of _ Hk ltac:(discriminate)) as Hc).
+    - apply fb_lws_ok; [apply Hk; reflexivity|exact Hi|exact Hinv|rewrite Est; discriminate].
+    - apply comma_ok; assumption.
+    - unpack s Hinv; cbn in Est; subst sta; fb_n1 Hi Hc.
+    - unpack s Hinv; cbn in Est; subst sta; fb_n1 Hi Hc.
+    - unpack s Hinv; cbn in Est; subst sta; fb_n1 Hi Hc.
+    - unpack s Hinv; cbn in Est; subst sta; fb_n1 Hi Hc.
+    - unpack s Hinv; cbn in Est; subst sta; fb_n1 Hi Hc.
+    - unpack s Hinv; cbn in Est; subst sta; fb_n1 Hi Hc.
+    - unpack s Hinv; cbn in Est; subst sta; fb_n1 Hi Hc.
+    - unpack s Hinv; cbn in Est; subst sta; fb_n1 Hi Hc.
+  Qed.
+
+  Lemma gStar_ok s k : fb_inv L pre i s -> fb_state s = FbStar -> (k = KWs <-> is_ws c = true) ->
+    fb_step_res L pre rest i (fb_gStar h pre rest i s k).
+  Proof.
+    intros Hinv Est Hk. unfold fb_gStar, fb_bad.
+    destruct k; try (apply fb_ret_ok; [apply (fb_inv_bnd L pre); exact Hinv|discriminate]).
+    apply fb_lws_ok; [apply Hk; reflexivity|exact Hi|exact Hinv|rewrite Est; discriminate].
+  Qed.
+
+  Lemma gQ_ok s st k : fb_inv L pre i s -> fb_state s = st -> st = FbQuoted \/ st = FbQuotedVal \/ st = FbQuotedPossibleVal ->
+    (k = KWs <-> is_ws c = true) -> fb_step_res L pre rest i (fb_gQ h pre rest r1 i s st k).
+  Proof.
+    intros Hinv Est Hst Hk. unfold fb_gQ.
+    assert (Hnn : fb_state s <> FbNameOrURI) by (rewrite Est; destruct Hst as [->|[->| ->]]; discriminate).
+    destruct k; try (pose proof (not_ws_of _ Hk ltac:(discriminate)) as Hc).
+    - apply fb_lws_ok; [apply Hk; reflexivity|exact Hi|exact Hinv|exact Hnn].
+    - unpack s Hinv; cbn in Est; subst sta; fb_n1 Hi Hc.
+    - unpack s Hinv; cbn in Est; subst sta; fb_n1 Hi Hc.
+    - unpack s Hinv; cbn in Est; subst sta; fb_n1 Hi Hc.
+    - unpack s Hinv; cbn in Est; subst sta; destruct Hst as [->|[->| ->]]; fb_n1 Hi Hc.
+    - unpack s Hinv; cbn in Est; subst sta; fb_n1 Hi Hc.
+    - unpack s Hinv; cbn in Est; subst sta; fb_n1 Hi Hc.
+    - unpack s Hinv; cbn in Est; subst sta; fb_n1 Hi Hc.
+    - (* backslash *)
+      destruct r1 as [|d r2].
+      + unfold fb_step_res, fb_Q. split; [unfold nnat; lia|]. split; [apply (fb_bnd_mono L i); [lia|apply (fb_inv_bnd L pre); exact Hinv]|].
+        split; [|intros [E|E]; discriminate]. intros _. exists 0%nat. split; [lia|]. split; [unfold nnat; lia|].
+        replace (i + nnat 0) with i by (unfold nnat; lia). exact Hinv.
+      + destruct (is_crlf d).
+        * unfold fb_step_res, fb_Q. split; [unfold nnat; cbn [length]; lia|]. split; [apply (fb_bnd_mono L i); [lia|apply (fb_inv_bnd L pre); exact Hinv]|].
+          split; [intros E; discriminate|intros [E|E]; discriminate].
+        * split; [cbn [length]; lia|]. split; [unfold nnat in *; rewrite zpre_length by (cbn [length]; lia); lia|].
+          apply fb_inv_adv; [exact Hi|cbn [length]; lia|exact Hinv|exact Hnn].
+    - unpack s Hinv; cbn in Est; subst sta; fb_n1 Hi Hc.
+  Qed.
+
+  Ltac bad_ret Hinv := unfold fb_bad; apply fb_ret_ok; [apply (fb_inv_bnd L pre); exact Hinv|discriminate].
+
+  Lemma setpv_step s s' : is_ws c = false -> fb_inv L pre i s -> fb_bnd L i s' -> fb_params s' = fb_params s ->
+    fb_step_res L pre rest i (fb_setpv pre rest i s').
+  Proof.
+    intros Hc Hinv Hb Ep. apply fb_setpv_ok; [exact Hi|exact Hc|exact Hb|]. rewrite Ep.
+    destruct Hinv as (_&_&_&_&_&_&_&_&_&_&_&_&_&_&F3). exact F3.
+  Qed.
+
+  Lemma gPE_ok s st k : fb_inv L pre i s -> fb_state s = st -> st = FbParamNameEnd \/ st = FbPossibleParamNameEnd ->
+    (k = KWs <-> is_ws c = true) -> fb_step_res L pre rest i (fb_gPE h pre rest i s st k).
+  Proof.
+    intros Hinv Est Hst Hk. unfold fb_gPE.
+    destruct k; try (pose proof (not_ws_of _ Hk ltac:(discriminate)) as Hc); try (bad_ret Hinv).
+    - apply comma_strict_ok; assumption.
+    - apply (setpv_step s); [exact Hc|exact Hinv| |destruct s; reflexivity].
+      unpack s Hinv. unfold fb_bnd, pf_end. cbn -[N.add N.sub]. repeat split; auto; intros; try lia. apply H12. cbn in Est. subst. destruct Hst as [->| ->]; discriminate.
+    - unpack s Hinv; cbn in Est; subst sta; destruct Hst as [->| ->]; fb_n1 Hi Hc.
+  Qed.
+
+  Lemma gVE_ok s st k : fb_inv L pre i s -> fb_state s = st -> st = FbParamValEnd \/ st = FbPossibleValEnd ->
+    (k = KWs <-> is_ws c = true) -> fb_step_res L pre rest i (fb_gVE h pre rest i s st k).
+  Proof.
+    intros Hinv Est Hst Hk. unfold fb_gVE.
+    destruct k; try (pose proof (not_ws_of _ Hk ltac:(discriminate)) as Hc); try (bad_ret Hinv).
+    - apply comma_strict_ok; assumption.
+    - apply (setpv_step s); [exact Hc|exact Hinv| |destruct s; reflexivity].
+      unpack s Hinv. unfold fb_bnd, pf_end. cbn -[N.add N.sub]. repeat split; auto; intros; try lia. apply H12. cbn in Est. subst. destruct Hst as [->| ->]; discriminate.
+  Qed.
+
+  Ltac inv_goal := unfold fb_inv, fb_bnd, pf_end in *; cbn -[N.add N.sub] in *; repeat split; intros; try lia; try tauto; try discriminate;
+                   try (match goal with Hx : _ -> ?G |- ?G => apply Hx; discriminate end).
+
+  Lemma gP_ok s st k : fb_inv L pre i s -> fb_state s = st ->
+    st = FbNewParam \/ st = FbNewPossibleParam \/ st = FbParamName \/ st = FbPossibleParamName ->
+    (k = KWs <-> is_ws c = true) -> fb_step_res L pre rest i (fb_gP h pre rest i s st k).
+  Proof.
+    intros Hinv Est Hst Hk. unfold fb_gP.
+    destruct k; try (pose proof (not_ws_of _ Hk ltac:(discriminate)) as Hc).
+    - (* white space *)
+      apply fb_lws_b_ok; [apply Hk; reflexivity|exact Hi|exact Hinv| |].
+      + intros n. unpack s Hinv. cbn in Est. subst sta. destruct Hst as [->|[->|[->| ->]]]; cbn; discriminate.
+      + intros k0. unpack s Hinv. cbn in Est. subst sta. destruct Hst as [->|[->|[->| ->]]]; cbn -[N.add N.sub]; inv_goal.
+    - apply comma_ok; assumption.
+    - bad_ret Hinv.
+    - bad_ret Hinv.
+    - unpack s Hinv; cbn in Est; subst sta; destruct Hst as [->|[->|[->| ->]]]; cbn -[N.add N.sub]; destruct (po pa =? 0) eqn:E0; fb_n1 Hi Hc.
+    - (* ';' *)
+      destruct (is_st_name st) eqn:En.
+      + apply (setpv_step s); [exact Hc|exact Hinv| |destruct s; reflexivity].
+        unpack s Hinv. cbn in Est. subst sta. destruct Hst as [->|[->|[->| ->]]]; cbn -[N.add N.sub] in *; try discriminate; inv_goal.
+      + unpack s Hinv; cbn in Est; subst sta; fb_n1 Hi Hc.
+    - unpack s Hinv; cbn in Est; subst sta; destruct Hst as [->|[->|[->| ->]]]; cbn -[N.add N.sub]; destruct (po pa =? 0) eqn:E0; fb_n1 Hi Hc.
+    - (* '=' *)
+      destruct (is_st_name st) eqn:En; [|bad_ret Hinv].
+      unpack s Hinv; cbn in Est; subst sta; destruct Hst as [->|[->|[->| ->]]]; cbn -[N.add N.sub] in *; try discriminate; fb_n1 Hi Hc.
+    - unpack s Hinv; cbn in Est; subst sta; destruct Hst as [->|[->|[->| ->]]]; cbn -[N.add N.sub]; destruct (po pa =? 0) eqn:E0; fb_n1 Hi Hc.
+    - unpack s Hinv; cbn in Est; subst sta; destruct Hst as [->|[->|[->| ->]]]; cbn -[N.add N.sub]; destruct (po pa =? 0) eqn:E0; fb_n1 Hi Hc.
+  Qed.
+
+  Lemma gV_ok s st k : fb_inv L pre i s -> fb_state s = st ->
+    st = FbNewParamVal \/ st = FbNewPossibleVal \/ st = FbParamVal \/ st = FbPossibleVal ->
+    (k = KWs <-> is_ws c = true) -> fb_step_res L pre rest i (fb_gV h pre rest i s st k).
+  Proof.
+    intros Hinv Est Hst Hk. unfold fb_gV.
+    destruct k; try (pose proof (not_ws_of _ Hk ltac:(discriminate)) as Hc).
+    - apply fb_lws_b_ok; [apply Hk; reflexivity|exact Hi|exact Hinv| |].
+      + intros n. unpack s Hinv. cbn in Est. subst sta. destruct Hst as [->|[->|[->| ->]]]; cbn; try destruct n; cbn; discriminate.
+      + intros k0. unpack s Hinv. cbn in Est. subst sta. destruct Hst as [->|[->|[->| ->]]]; cbn -[N.add N.sub]; inv_goal.
+    - apply comma_ok; assumption.
+    - bad_ret Hinv.
+    - bad_ret Hinv.
+    - unpack s Hinv; cbn in Est; subst sta; destruct Hst as [->|[->|[->| ->]]]; cbn -[N.add N.sub]; fb_n1 Hi Hc.
+    - apply (setpv_step s); [exact Hc|exact Hinv| |destruct s; reflexivity].
+      unpack s Hinv. cbn in Est. subst sta. destruct Hst as [->|[->|[->| ->]]]; cbn -[N.add N.sub] in *; inv_goal.
+    - unpack s Hinv; cbn in Est; subst sta; destruct Hst as [->|[->|[->| ->]]]; cbn -[N.add N.sub]; fb_n1 Hi Hc.
+    - bad_ret Hinv.
+    - unpack s Hinv; cbn in Est; subst sta; destruct Hst as [->|[->|[->| ->]]]; cbn -[N.add N.sub]; fb_n1 Hi Hc.
+    - unpack s Hinv; cbn in Est; subst sta; destruct Hst as [->|[->|[->| ->]]]; cbn -[N.add N.sub]; fb_n1 Hi Hc.
+  Qed.
+
+  Lemma gA_ok s st k : fb_inv L pre i s -> fb_state s = st ->
+    st = FbInit \/ st = FbName \/ st = FbNameOrURI \/ st = FbNameOrURIEnd ->
+    (k = KWs <-> is_ws c = true) -> fb_step_res L pre rest i (fb_gA h pre rest i s st k).
+  Proof.
+    intros Hinv Est Hst Hk. unfold fb_gA, fb_reset3.
+    destruct k; try (pose proof (not_ws_of _ Hk ltac:(discriminate)) as Hc).
+    - (* white space *)
+      destruct (is_st_nameoruri st) eqn:En.
+      + assert (E : st = FbNameOrURI) by (destruct Hst as [->|[->|[->| ->]]]; cbn in En; try discriminate; reflexivity).
+        unpack s Hinv. cbn in Est. subst sta st. cbn -[N.add N.sub].
+        rewrite (pf_set_some so i) by lia. rewrite (pf_extend_some v i) by (cbn; lia).
+        apply fb_lws_ok; [apply Hk; reflexivity|exact Hi| |cbn; discriminate]. inv_goal.
+      + apply fb_lws_ok; [apply Hk; reflexivity|exact Hi|exact Hinv|].
+        rewrite Est. destruct Hst as [->|[->|[->| ->]]]; cbn in En; discriminate.
+    - apply comma_ok; assumption.
+    - (* '<' *)
+      unpack s Hinv; cbn in Est; subst sta; destruct Hst as [->|[->|[->| ->]]]; cbn -[N.add N.sub];
+        rewrite ?(pf_set_some i i), ?(pf_set_some so i) by lia; fb_n1 Hi Hc.
+    - bad_ret Hinv.
+    - (* dquote *)
+      unpack s Hinv; cbn in Est; subst sta; destruct Hst as [->|[->|[->| ->]]]; cbn -[N.add N.sub];
+        rewrite ?(pf_set_some i i) by lia; fb_n1 Hi Hc.
+    - (* ';' *)
+      unpack s Hinv; cbn in Est; subst sta; destruct Hst as [->|[->|[->| ->]]]; cbn -[N.add N.sub];
+        rewrite ?(pf_set_some so i), ?(pf_extend_some v (i + 1)) by (cbn; lia);
+        first [fb_n1 Hi Hc | unfold fb_bad; apply fb_ret_ok; [inv_goal|discriminate]].
+    - (* star *)
+      unpack s Hinv; cbn in Est; subst sta; destruct Hst as [->|[->|[->| ->]]]; cbn -[N.add N.sub];
+        rewrite ?(pf_set_some i (i + 1)) by lia; fb_n1 Hi Hc.
+    - unpack s Hinv; cbn in Est; subst sta; destruct Hst as [->|[->|[->| ->]]]; cbn -[N.add N.sub];
+        rewrite ?(pf_set_some i i) by lia; fb_n1 Hi Hc.
+    - unpack s Hinv; cbn in Est; subst sta; destruct Hst as [->|[->|[->| ->]]]; cbn -[N.add N.sub];
+        rewrite ?(pf_set_some i i) by lia; fb_n1 Hi Hc.
+    - unpack s Hinv; cbn in Est; subst sta; destruct Hst as [->|[->|[->| ->]]]; cbn -[N.add N.sub];
+        rewrite ?(pf_set_some i i) by lia; fb_n1 Hi Hc.
+  Qed.
+End FbStep.
+
+Lemma fb_step_ok L h pre rest i s : fb_P L pre rest i s -> fb_step_res L pre rest i (fb_iter h pre rest i s).
+Proof.
+  intros [Hi Hinv]. unfold fb_iter.
+  assert (Hfin : fb_step_res L pre rest i (Ret i EOk s)) by (apply fb_ret_ok; [apply (fb_inv_bnd L pre); exact Hinv|discriminate]).
+  destruct (fb_state s) eqn:Est; try exact Hfin.
+  all: destruct rest as [|c r1];
+    [unfold fb_step_res, fb_Q; split; [unfold nnat; cbn; lia|]; split; [apply (fb_bnd_mono L i); [lia|apply (fb_inv_bnd L pre); exact Hinv]|];
+     split; [|intros [E|E]; discriminate]; intros _; exists 0%nat; split; [lia|]; split; [unfold nnat; lia|];
+     replace (i + nnat 0) with i by (unfold nnat; lia); exact Hinv|].
+  all: assert (Hk : ccls_of c = KWs <-> is_ws c = true)
+         by (split; [intros E; destruct (is_ws c) eqn:Ew; [reflexivity|exfalso; exact (ccls_nows' c Ew E)]|apply ccls_ws]).
+  all: unfold fb_step.
+  - apply (gA_ok L h pre c r1 i Hi s FbInit); auto.
+  - apply (gA_ok L h pre c r1 i Hi s FbNameOrURI); auto.
+  - apply (gA_ok L h pre c r1 i Hi s FbNameOrURIEnd); auto 6.
+  - apply (gA_ok L h pre c r1 i Hi s FbName); auto.
+  - apply (gQ_ok L h pre c r1 i Hi s FbQuoted); auto.
+  - apply (gURI_ok L pre c r1 i Hi s); auto.
+  - apply (gURIFound_ok L h pre c r1 i Hi s); auto.
+  - apply (gP_ok L h pre c r1 i Hi s FbNewPossibleParam); auto.
+  - apply (gP_ok L h pre c r1 i Hi s FbPossibleParamName); auto 6.
+  - apply (gPE_ok L h pre c r1 i Hi s FbPossibleParamNameEnd); auto.
+  - apply (gP_ok L h pre c r1 i Hi s FbNewParam); auto.
+  - apply (gP_ok L h pre c r1 i Hi s FbParamName); auto 6.
+  - apply (gPE_ok L h pre c r1 i Hi s FbParamNameEnd); auto.
+  - apply (gV_ok L h pre c r1 i Hi s FbNewParamVal); auto.
+  - apply (gV_ok L h pre c r1 i Hi s FbParamVal); auto 6.
+  - apply (gVE_ok L h pre c r1 i Hi s FbParamValEnd); auto.
+  - apply (gV_ok L h pre c r1 i Hi s FbNewPossibleVal); auto.
+  - apply (gV_ok L h pre c r1 i Hi s FbPossibleVal); auto 6.
+  - apply (gVE_ok L h pre c r1 i Hi s FbPossibleValEnd); auto.
+  - apply (gQ_ok L h pre c r1 i Hi s FbQuotedVal); auto.
+  - apply (gQ_ok L h pre c r1 i Hi s FbQuotedPossibleVal); auto 6.
+  - apply (gStar_ok L h pre c r1 i Hi s); auto.
+Qed.
+
+Lemma zpre_whole_prefix (p' r' : list byte) k buf : rev p' ++ r' = buf -> (k <= length r')%nat ->
+  zpre k p' r' = rev (firstn (length p' + k) buf).
+Proof.
+  intros <- Hk. unfold zpre. rewrite firstn_app, rev_length.
+  replace (length p' + k - length p')%nat with k by lia.
+  assert (Hl : (length (rev p') <= length p' + k)%nat) by (rewrite rev_length; lia).
+  rewrite (firstn_all2 (rev p') Hl). rewrite rev_app_distr, rev_involutive. reflexivity.
+Qed.
+
+Theorem nameaddr_safe L h buf offs s : offs <= nnat (length buf) ->
+  fb_inv L (rev (firstn (N.to_nat offs) buf)) offs s ->
+  match parse_nameaddr h buf offs s with
+  | Done o e s' => o <= nnat (length buf) /\ fb_bnd L (nnat (length buf)) s' /\
+                   (e = EMore -> offs <= o /\ fb_inv L (rev (firstn (N.to_nat o) buf)) o s') /\
+                   (e = EOk \/ e = EMoreValues -> offs <= o)
+  | _ => False
+  end.
+Proof.
+  intros Hoffs Hinv. unfold parse_nameaddr, parse, zinit.
+  pose proof (run_safe (fb_iter h) (fun pre rest i s => fb_P L pre rest i s /\ offs <= i)
+                (fun pre rest i o e s => fb_Q L pre rest i o e s /\ offs <= i /\ i = nnat (length pre))) as H.
+  assert (G : forall pre rest i s0, fb_P L pre rest i s0 /\ offs <= i ->
+            match fb_iter h pre rest i s0 with
+            | Next k s' => (0 < k <= length rest)%nat /\ (fb_P L (zpre k pre rest) (zrest k rest) (i + nnat k) s' /\ offs <= i + nnat k)
+            | Ret o e s' => fb_Q L pre rest i o e s' /\ offs <= i /\ i = nnat (length pre)
+            | IPanic => False end).
+  { intros pre rest i s0 [HP Ho]. pose proof (fb_step_ok L h pre rest i s0 HP) as X. unfold fb_step_res in X.
+    destruct (fb_iter h pre rest i s0); auto.
+    - destruct X as [X1 X2]. split; [exact X1|]. split; [exact X2|unfold nnat; lia].
+    - split; [exact X|]. split; [exact Ho|apply HP]. }
+  specialize (H G (skipn (N.to_nat offs) buf) (rev (firstn (N.to_nat offs) buf)) offs s).
+  assert (H0 : fb_P L (rev (firstn (N.to_nat offs) buf)) (skipn (N.to_nat offs) buf) offs s /\ offs <= offs).
+  { split; [|lia]. split; [|exact Hinv]. rewrite rev_length, firstn_length. unfold nnat in *. lia. }
+  specialize (H H0).
+  destruct (run (fb_iter h) _ _ offs 0 s) as [o e s'| |]; auto.
+  destruct H as (p' & r' & i' & ((H1 & H2 & H3 & H4) & Hio & Hi') & Hw).
+  rewrite zinit_whole in Hw. pose proof Hw as Hw2. apply (f_equal (@length _)) in Hw2. rewrite app_length, rev_length in Hw2.
+  assert (E : i' + nnat (length r') = nnat (length buf)) by (unfold nnat in *; lia).
+  rewrite E in *. split; [exact H1|]. split; [exact H2|]. split.
+  - intros He. destruct (H3 He) as (k & Hk & Ho & Hinv'). split; [unfold nnat in *; lia|].
+    rewrite (zpre_whole_prefix p' r' k buf Hw Hk) in Hinv'.
+    replace (N.to_nat o) with (length p' + k)%nat by (unfold nnat in *; lia). exact Hinv'.
+  - intros He. specialize (H4 He). lia.
+Qed.
+Lemma pfrom0_inv L pre o : L <= o -> fb_inv L pre o pfrom0.
+Proof. intros H. unfold fb_inv, pf_end. cbn. repeat split; auto; try lia; try discriminate; intros; congruence. Qed.
